@@ -12,4 +12,8 @@ namespace Generated
 
 theorem flatten_skeletons : facts.skeletons = Facts.flattenSkeletons := by decide
 
+/-- the phase functions the model transcribes read, statement by statement, as they did when the model
+    was last brought in line with them -/
+theorem flatten_phase_skeletons : facts.phaseSkeletons = Facts.flattenPhaseSkeletons := by rfl
+
 end Generated
